@@ -1,4 +1,4 @@
-"""C13 - slerp / mix / lerp of quaternions (kind R: over the reals; branch selection and the affine blend also kind F, bitwise).
+"""C13 - slerp / mix / lerp of quaternions and their gtx relatives (kind R: over the reals; the affine blend of lerp<float> also kind F, bitwise).
 
 Clauses come from proposed/C13_property.json, from the documentation in glm/ext/quaternion_common.hpp and
 glm/gtx/quaternion.hpp, and from the textbook definition of spherical linear interpolation: the slerp point between
@@ -134,11 +134,15 @@ for tag in ('f32', 'f64'):
     R(fn.replace('slerp', 'slerp_t1'), 'glm::slerp(x, y, 1)  ' + QC, requires=UNIT,
       ensures=[('ends_at_y_or_minus_y', 'Or(And(eqv(out, %s)), And(eqv(out, vneg(%s))))' % (Y, Y)),
                ('ends_at_minus_y_exactly_when_dot_negative', 'And(eqv(out, %s))' % Z)])
-    # symmetry: slerp(x, y, t) == +-slerp(y, x, 1 - t); the shim takes b as a parameter, the contract requires b == 1 - a
+    # symmetry: slerp(x, y, t) == +-slerp(y, x, 1 - t).  The second argument list contains the `1 - a` of the property statement itself (the
+    # only arithmetic in any shim of this module): with a separate parameter b and requires b == 1 - a the ten sin/cos applications are
+    # related only through congruence axioms and the case-split engine does not finish (see the report)
     fn = 'glm_quat_slerp_sym_' + tag
-    d.shim(fn, 'void', xy + [(T, 'a'), (T, 'b')], 'auto r = glm::slerp(%s, %s, a); auto s = glm::slerp(%s, %s, b); %s %s' % (
-        qx, qy, qy, qx, q_store('r'), q_store('s', out='rev')), outs=[(T, 'out', 4), (T, 'rev', 4)])
-    R(fn, 'glm::slerp(x, y, t) vs glm::slerp(y, x, 1 - t)  ' + QC, requires=UNIT + [('b_is_one_minus_a', 'b == 1 - a')],
+    d.shim(fn, 'void', xy + [(T, 'a')], 'auto r = glm::slerp(%s, %s, a); auto s = glm::slerp(%s, %s, %s - a); %s %s' % (
+        qx, qy, qy, qx, one, q_store('r'), q_store('s', out='rev')), outs=[(T, 'out', 4), (T, 'rev', 4)])
+    R(fn, 'glm::slerp(x, y, t) vs glm::slerp(y, x, 1 - t)  ' + QC, requires=UNIT,
+      # the statement's "equal up to sign" in its sharper form (the disjunction  out == rev or out == -rev  itself is left UNKNOWN by the
+      # portfolio: the case-split engine cannot take a disjunction of two equality blocks apart; it follows from this clause)
       ensures=[('equal_for_nonnegative_dot_opposite_for_negative_dot', 'And(eqv(out, [If(%s < 0, -c, c) for c in rev]))' % D)])
 
     # ------------------------------------------------------------------ slerp with k extra spins: total angle theta + k*pi
@@ -280,7 +284,7 @@ flatF = P.build(d, 'flat', defines=['GLM_ENABLE_EXPERIMENTAL'], tag='c13_flat_bi
 QUICK = ('glm_quat_lerp_', 'glm_compat_lerp_', 'glm_dualquat_lerp_', 'glm_quat_slerp_t0_', 'glm_quat_slerp_t1_', 'glm_quat_slerp_spin_t0_',
          'glm_quat_slerp_spin0_', 'glm_vec3_slerp_t0_', 'glm_vec3_slerp_t1_', 'glm_quat_fastMix_')
 for fn, real, kw in contracts:
-    kw.setdefault('timeout', 900 if 'slerp_sym' in fn else 600 if 'slerp_spin_f' in fn else 300)
+    kw.setdefault('timeout', 600 if 'slerp_spin_f' in fn else 300)
     kw.setdefault('tier', 'quick' if fn.startswith(QUICK) else 'thorough')
     P.contract(fn, real, kind='R', **kw)
 # kind F: only the bitwise affine blend of lerp<float> is decided (cadical, ~60 s CPU); the others time out at 600 s (see not_covered) and are
@@ -322,6 +326,8 @@ P.assumptions = ['machine arithmetic treated as mathematical (IEEE float/double 
                  'domain of mix (oriented arc): x.y > -1; the great arc from x to -x is not unique and the formula is 0/0 there',
                  'domain of gtx slerp(vec3): unit vectors, x.y > -1; identical / parallel vectors ARE in the domain (the clause demands x)',
                  'lerp and dual-quaternion lerp: 0 <= a <= 1 (GLM asserts it; NDEBUG build)',
+                 'the symmetry shim evaluates glm::slerp(y, x, T(1) - a): the subtraction is the "1 - t" of the property statement, the only '
+                 'arithmetic in a shim of this module; over the reals 1 - (1 - a) is a',
                  'kind F (lerp<float>): float multiplication abstracted as a commutative uninterpreted function (sound: both sides apply '
                  'the same operation to the same operands)']
 P.not_covered = ['"no input pair, however close to parallel or antipodal, makes slerp return NaN or leave the arc" in float arithmetic: needs '
@@ -336,6 +342,8 @@ P.not_covered = ['"no input pair, however close to parallel or antipodal, makes 
                  'kind F "slerp negates y iff the float dot < 0" / "mix and slerp return the bitwise affine blend above the threshold" (f32, f64) '
                  'and the bitwise blend of lerp<double>: cadical and minisat time out at 600 s (two float adders per component behind '
                  'uninterpreted products are not recognised as identical); enable with C13_TRY_UNDECIDED=1',
-                 'slerp(x,y,t) == +-slerp(y,x,1-t) is claimed in the sharper form "equal for x.y >= 0, opposite for x.y < 0"',
+                 'slerp(x,y,t) == +-slerp(y,x,1-t) is claimed in the sharper form "equal for x.y >= 0, opposite for x.y < 0"; the plain disjunction '
+                 '(out == rev or out == -rev) is left UNKNOWN by every engine at 300 s (a disjunction of two equality blocks is not split by '
+                 'tools/rsplit.py) and is not a separate obligation: it follows from the sharper clause',
                  'GLM_FORCE_QUAT_DATA_WXYZ / aligned / SIMD instantiations (quaternion_common_simd.inl has no mix/slerp specialisation)',
                  'rounding: every equality is over the reals; float results differ by rounding errors that grow like 1/sin(T) near T = pi for mix']
